@@ -2,6 +2,7 @@
 Helper lemmas about the `RecordSet::insert` / `RecordSet::remove` / `upsert` models.
 -/
 import HickoryVerif.Lemmas.Zone
+import HickoryVerif.Proofs.C04
 
 namespace HickoryVerif.Upd
 open HickoryVerif
@@ -18,6 +19,16 @@ theorem Rec.dataEq_trans {a b c : Rec} (h₁ : a.dataEq b = true) (h₂ : b.data
     a.dataEq c = true := by
   rw [Rec.dataEq_iff] at *; exact ⟨h₁.1.trans h₂.1, h₁.2.trans h₂.2⟩
 
+theorem Rec.eqv_refl (a : Rec) : a.eqv a = true := by
+  have : Name.eq a.name a.name = true := (HickoryVerif.C04.cmp_eq_iff a.name a.name).mp (HickoryVerif.C04.cmp_refl a.name)
+  simp [Rec.eqv, this, Rec.dataEq_refl]
+
+/-- `SerialNumber(s) < SerialNumber(s.wrapping_add(1))` — for every u32 (and every `Nat`) -/
+theorem serialNumberLt_succ (s : Nat) : serialNumberLt s ((s + 1) % 4294967296) = true := by
+  unfold serialNumberLt
+  simp only [decide_eq_true_eq]
+  omega
+
 /-- no two records of the set have equal RDATA -/
 def Distinct (rs : RSet) : Prop := rs.Pairwise fun a b => a.dataEq b = false
 
@@ -31,7 +42,7 @@ theorem replaceDup_eq (r : Rec) (rs : List Rec) :
     unfold replaceDup
     by_cases hd : x.dataEq r = true
     · rw [if_pos hd]
-      by_cases he : x.eqv r = true
+      by_cases he : (x.eqv r && x.ttl == r.ttl) = true
       · left; rw [if_pos he]
       · rw [if_neg he]
         rcases ih with h | h
@@ -68,10 +79,10 @@ theorem rsInsert_ne_nil (rs : RSet) (r : Rec) (h : (rsInsert rs r).2 = true) : (
         subst this; simp at ha
       | false => simp
 
-/-- the SOA rule of `insert` on a one-record SOA set -/
+/-- the SOA rule of `insert` on a one-record SOA set (RFC 1982 comparison since aeeb945) -/
 theorem rsInsert_soa (x r : Rec) (se rest : Nat) (ht : r.rtype = T_SOA) (hx : x.rdata = .soa se rest) :
     rsInsert [x] r = ([x], false) ∨
-    (∃ sn rest', r.rdata = .soa sn rest' ∧ se < sn ∧ rsInsert [x] r = ([r], true)) := by
+    (∃ sn rest', r.rdata = .soa sn rest' ∧ serialNumberLt se sn = true ∧ rsInsert [x] r = ([r], true)) := by
   unfold rsInsert insertPre
   rw [if_pos ht]
   simp only [hx]
@@ -79,11 +90,20 @@ theorem rsInsert_soa (x r : Rec) (se rest : Nat) (ht : r.rtype = T_SOA) (hx : x.
   | empty => left; rfl
   | bytes b => left; rfl
   | soa sn rest' =>
-    by_cases hle : sn ≤ se
-    · left; simp [hle]
-    · right
-      refine ⟨sn, rest', rfl, by omega, ?_⟩
-      simp [hle, replaceDup]
+    cases hlt : serialNumberLt se sn with
+    | false => left; simp [hlt]
+    | true =>
+      right
+      refine ⟨sn, rest', rfl, hlt, ?_⟩
+      simp [hlt, replaceDup]
+
+/-- … and the converse reading: it is ignored exactly when the zone serial is not RFC 1982-less -/
+theorem rsInsert_soa_ignored (x r : Rec) (se rest sn rest' : Nat) (ht : r.rtype = T_SOA)
+    (hx : x.rdata = .soa se rest) (hr : r.rdata = .soa sn rest') (h : serialNumberLt se sn = false) :
+    rsInsert [x] r = ([x], false) := by
+  unfold rsInsert insertPre
+  rw [if_pos ht]
+  simp [hx, hr, h]
 
 theorem distinct_map_replace (r : Rec) (rs : RSet) (h : Distinct rs) :
     Distinct (rs.map fun x => if x.dataEq r then r else x) := by
@@ -105,27 +125,25 @@ theorem distinct_map_replace (r : Rec) (rs : RSet) (h : Distinct rs) :
     | true => exact absurd h' ha
   · simp [ha, hb, hab]
 
-/-- a non-SOA, non-CNAME insert keeps the RDATA of the set pairwise distinct -/
-theorem rsInsert_distinct (rs : RSet) (r : Rec) (h1 : r.rtype ≠ T_SOA)
-    (h2 : ¬(r.rtype = T_CNAME ∨ r.rtype = T_ANAME)) (hd : Distinct rs) : Distinct (rsInsert rs r).1 := by
-  unfold rsInsert insertPre
-  rw [if_neg h1, if_neg h2]
-  simp only
-  rcases replaceDup_eq r rs with hr | hr
-  · rw [hr]; exact hd
-  · rw [hr]
-    cases ha : rs.any (fun x => x.dataEq r) with
-    | true => exact distinct_map_replace r rs hd
+theorem replaceDup_distinct (r : Rec) (recs : RSet) (hd : Distinct recs) :
+    ∀ ys b, replaceDup r recs = some (ys, b) → Distinct (if b then ys else ys ++ [r]) := by
+  intro ys b h
+  rcases replaceDup_eq r recs with hr | hr
+  · rw [hr] at h; cases h
+  · rw [hr] at h
+    cases h
+    cases ha : recs.any (fun x => x.dataEq r) with
+    | true => simpa using distinct_map_replace r recs hd
     | false =>
-      simp only
-      have hnone : ∀ x ∈ rs, x.dataEq r = false := by
+      simp only [Bool.false_eq_true, if_false]
+      have hnone : ∀ x ∈ recs, x.dataEq r = false := by
         intro x hx
         cases hxr : x.dataEq r with
         | false => rfl
         | true =>
-          have : rs.any (fun x => x.dataEq r) = true := List.any_eq_true.mpr ⟨x, hx, hxr⟩
+          have : recs.any (fun x => x.dataEq r) = true := List.any_eq_true.mpr ⟨x, hx, hxr⟩
           rw [ha] at this; cases this
-      have hmap : rs.map (fun x => if x.dataEq r = true then r else x) = rs := by
+      have hmap : recs.map (fun x => if x.dataEq r = true then r else x) = recs := by
         rw [List.map_congr_left (g := id)]
         · simp
         · intro x hx; simp [hnone x hx]
@@ -134,6 +152,39 @@ theorem rsInsert_distinct (rs : RSet) (r : Rec) (h1 : r.rtype ≠ T_SOA)
       rw [List.pairwise_append]
       exact ⟨hd, List.pairwise_singleton _ _, by
         intro a ha' b hb; simp at hb; subst hb; exact hnone a ha'⟩
+
+/-- `insert` keeps the RDATA of the set pairwise distinct (every type) -/
+theorem rsInsert_distinct (rs : RSet) (r : Rec) (hd : Distinct rs) : Distinct (rsInsert rs r).1 := by
+  unfold rsInsert
+  cases hp : insertPre rs r with
+  | none => exact hd
+  | some recs =>
+    have hdr : Distinct recs := by
+      unfold insertPre at hp
+      split at hp
+      · split at hp
+        · cases hp; exact List.Pairwise.nil
+        · split at hp
+          · split at hp
+            · cases hp
+            · cases hp; exact List.Pairwise.nil
+          · cases hp
+      · split at hp
+        · split at hp
+          · split at hp
+            · cases hp
+            · cases hp; exact List.Pairwise.nil
+          · cases hp; exact List.Pairwise.nil
+        · cases hp; exact hd
+    simp only
+    cases hr : replaceDup r recs with
+    | none => exact hd
+    | some p =>
+      obtain ⟨ys, b⟩ := p
+      have := replaceDup_distinct r recs hdr ys b hr
+      cases b with
+      | true => simpa using this
+      | false => simpa using this
 
 /-- with pairwise distinct RDATA a filter by RDATA removes at most one record -/
 theorem filter_dataEq_length (rs : RSet) (r : Rec) (hd : Distinct rs) :
@@ -195,7 +246,7 @@ theorem rsRemove_soa (rs : RSet) (r : Rec) (ht : r.rtype = T_SOA) : rsRemove rs 
   rw [if_neg this, if_pos ht]
 
 /-- `get` finds a key ⇒ its type is listed by `typesAt` -/
-theorem Zone.mem_typesAt (z : Zone) (n : Name) (t : Nat) (v : RSet) (h : z.get (n, t) = some v) (ht : t < 65535) :
+theorem Zone.mem_typesAt (z : Zone) (n : Name) (t : Nat) (v : RSet) (h : z.get (n, t) = some v) :
     t ∈ z.typesAt n := by
   induction z with
   | nil => simp at h
@@ -204,7 +255,7 @@ theorem Zone.mem_typesAt (z : Zone) (n : Name) (t : Nat) (v : RSet) (h : z.get (
     unfold Zone.typesAt
     rw [Zone.get_cons] at h
     by_cases hk : k1 = (n, t)
-    · subst hk; simp [List.filter_cons, ht]
+    · subst hk; simp [List.filter_cons]
     · rw [if_neg hk] at h
       have := ih h
       unfold Zone.typesAt at this
@@ -231,7 +282,7 @@ theorem Zone.get_of_mem_typesAt (z : Zone) (n : Name) (t : Nat) (h : t ∈ z.typ
         simp only [List.map_cons, List.mem_cons] at h
         rcases h with h | h
         · exfalso; apply hk
-          have hp' : k1.1 = n := by simpa using (show k1.1 = n ∧ k1.2 < 65535 from by simpa using hp).1
+          have hp' : k1.1 = n := by simpa using hp
           exact Prod.ext hp' h.symm
         · exact h
       · exact h
